@@ -1,6 +1,6 @@
 #!/bin/bash
 # usage: tools_confirm_pyseed.sh <prop> <X> — Python demos (C18/C19): build the extension without / with the patch, run demo.py <so> <root>
-P=$1; X=$2; SRC=/tmp/seed/$P/SEED/$X; ID=$P$X
+P=$1; X=$2; SRC=${SEEDROOT:-/tmp/seed}/$P/SEED/$X; ID=$P$X
 WT=/tmp/seedconf/$ID; rm -rf $WT; mkdir -p /tmp/seedconf
 git -C /repo worktree add -q --detach $WT HEAD || exit 3
 build() { (cd $WT && PYO3_PYTHON=/opt/veriftools/pyvenv/bin/python cargo build --release -p bourse --offline >/dev/null 2>&1 && mkdir -p $WT/so_$1 && cp target/release/libbourse.so $WT/so_$1/core.cpython-311-x86_64-linux-gnu.so); }
